@@ -109,11 +109,14 @@ struct TermGen {
     hash_ns: bool,
     /// word literals with one inner space
     spaced: bool,
+    /// literals that need their delimiters: leading / trailing blanks, a leading quote, an
+    /// IRI-like shape (N-Triples and N-Quads documents only, where escapes are defined)
+    hostile: bool,
 }
 
 impl TermGen {
     fn for_size(r: &mut Rng, target: usize) -> TermGen {
-        TermGen { n_ent: (target / 3).max(3) + r.below(4), n_pred: r.range(2, 7), n_num: r.range(3, 12), n_word: r.range(2, 6), x_share: r.below(4), hash_ns: r.chance(1, 4), spaced: r.chance(1, 3) }
+        TermGen { n_ent: (target / 3).max(3) + r.below(4), n_pred: r.range(2, 7), n_num: r.range(3, 12), n_word: r.range(2, 6), x_share: r.below(4), hash_ns: r.chance(1, 4), spaced: r.chance(1, 3), hostile: false }
     }
     fn ns(&self, r: &mut Rng) -> &'static str {
         if self.hash_ns && r.chance(1, 3) {
@@ -139,7 +142,9 @@ impl TermGen {
             0..=10 => self.ent(r),
             11..=15 => format!("{}", r.below(self.n_num)),
             _ => {
-                if self.hash_ns && r.chance(1, 4) {
+                if self.hostile && r.chance(1, 3) {
+                    r.pick(&[" lead", "trail ", "\"q\" at the start", "<b>x</b>", "a  b", "<http://not/an/iri>", "end\""]).to_string()
+                } else if self.hash_ns && r.chance(1, 4) {
                     // a '#' inside a literal is no comment
                     format!("w{}#x", r.below(self.n_word))
                 } else if self.spaced && r.chance(1, 3) {
@@ -347,7 +352,7 @@ fn cut(s: &str, n: usize) -> String {
 }
 
 fn lit_nt(t: &str) -> String {
-    format!("\"{}\"", t)
+    format!("\"{}\"", t.replace('\\', "\\\\").replace('"', "\\\""))
 }
 
 struct LineWriter<'a> {
@@ -779,7 +784,7 @@ fn build_prior(kind: PriorKind, seed: u64, doc: &Doc) -> SparqlDatabase {
         }
         PriorKind::LoadedBefore(f) => {
             let target = *r.pick(&[5usize, 40, 150, 300, 1100]);
-            let tg = TermGen { n_ent: 30, n_pred: 5, n_num: 8, n_word: 4, x_share: 2, hash_ns: false, spaced: false };
+            let tg = TermGen { n_ent: 30, n_pred: 5, n_num: 8, n_word: 4, x_share: 2, hash_ns: false, spaced: false, hostile: false };
             let o = DocOpts::random(&mut r, f, target);
             let d0 = gen_doc(&mut r, f, &o, &tg);
             load(&mut db, f, &d0.text());
@@ -1348,7 +1353,7 @@ fn run_plan(ctx: &mut Ctx, r: &mut Rng, p: &Plan, follow_up: bool) {
         let f2 = *r.pick(&ALL_FMTS);
         let target = r.range(1, 60);
         // overlapping vocabulary: same generator parameters as the first document
-        let tg = TermGen { n_ent: (doc.units() / 3).max(3), n_pred: 4, n_num: 6, n_word: 3, x_share: 2, hash_ns: false, spaced: false };
+        let tg = TermGen { n_ent: (doc.units() / 3).max(3), n_pred: 4, n_num: 6, n_word: 3, x_share: 2, hash_ns: false, spaced: false, hostile: false };
         let o2 = DocOpts::random(r, f2, target);
         let d2 = gen_doc(r, f2, &o2, &tg);
         let c = Check { fmt: f2, doc: &d2, build: &build1, prior: format!("{} + a {} document of {} units", prior_name, f, doc.units()), threads: t, step: "second_document_other_format" };
@@ -1439,7 +1444,8 @@ fn run(ctx: &mut Ctx) {
         let idx = (k as usize) % (combos.len() * n_prior);
         let (fmt, size) = combos[idx / n_prior];
         let prior = priors[idx % n_prior];
-        let tg = TermGen::for_size(&mut r, size);
+        let mut tg = TermGen::for_size(&mut r, size);
+        tg.hostile = matches!(fmt, Fmt::NTriples | Fmt::NQuads) && r.chance(1, 3);
         let mut o = DocOpts::random(&mut r, fmt, size);
         if size >= 999 && matches!(fmt, Fmt::Turtle | Fmt::N3) && o.prefix_mode == PrefixMode::None && r.coin() {
             o.prefix_mode = PrefixMode::TopOnly;
@@ -1464,7 +1470,8 @@ fn run(ctx: &mut Ctx) {
         let mut r = ctx.rng(k);
         let fmt = *r.pick(&[Fmt::NTriples, Fmt::NTriples, Fmt::NQuads, Fmt::Turtle, Fmt::Turtle, Fmt::N3, Fmt::N3, Fmt::RdfXml]);
         let size = size_pick(&mut r, fmt, thorough);
-        let tg = TermGen::for_size(&mut r, size);
+        let mut tg = TermGen::for_size(&mut r, size);
+        tg.hostile = matches!(fmt, Fmt::NTriples | Fmt::NQuads) && r.chance(1, 3);
         let o = DocOpts::random(&mut r, fmt, size);
         let doc = gen_doc(&mut r, fmt, &o, &tg);
         let prior = PriorKind::random(&mut r);
